@@ -5,6 +5,7 @@ import (
 	"errors"
 	"fmt"
 	"sync"
+	"sync/atomic"
 	"time"
 
 	"github.com/KevoDB/kevo/pkg/common/log"
@@ -198,9 +199,10 @@ func (p *Primary) currentWAL() *wal.WAL {
 
 // OnWALSync implements WALEntryObserver.OnWALSync
 func (p *Primary) OnWALSync(upToSeq uint64) {
-	p.mu.Lock()
-	p.lastSyncedSeq = upToSeq
-	p.mu.Unlock()
+	// This runs inside the WAL append, with the WAL mutex held. Taking p.mu for
+	// writing here deadlocks against a replica's poll, which holds p.mu for
+	// reading while it waits for the WAL mutex.
+	atomic.StoreUint64(&p.lastSyncedSeq, upToSeq)
 
 	// If we have any buffered entries, send them now that they're synced
 	if p.batcher.GetBatchCount() > 0 {
@@ -637,12 +639,13 @@ func (p *Primary) resendEntries(session *ReplicaSession, fromSequence uint64) er
 // getWALEntriesFromSequence retrieves WAL entries starting from the specified sequence
 // in batches of up to maxEntriesToReturn entries at a time
 func (p *Primary) getWALEntriesFromSequence(fromSequence uint64) ([]*wal.Entry, error) {
-	p.mu.RLock()
-	defer p.mu.RUnlock()
+	// Do not hold p.mu while calling into the WAL: writers call back into the
+	// primary (observer notifications take p.mu) with the WAL mutex held
+	currentWAL := p.currentWAL()
 
 	// Get current sequence in WAL (next sequence - 1)
 	// We subtract 1 to get the current highest assigned sequence
-	currentSeq := p.wal.GetNextSequence() - 1
+	currentSeq := currentWAL.GetNextSequence() - 1
 
 	log.Info("GetWALEntriesFromSequence called with fromSequence=%d, currentSeq=%d",
 		fromSequence, currentSeq)
@@ -655,7 +658,7 @@ func (p *Primary) getWALEntriesFromSequence(fromSequence uint64) ([]*wal.Entry, 
 
 	// Use the WAL's built-in method to get entries starting from the specified sequence
 	// This preserves the original keys and values exactly as they were written
-	allEntries, err := p.wal.GetEntriesFrom(fromSequence)
+	allEntries, err := currentWAL.GetEntriesFrom(fromSequence)
 	if err != nil {
 		log.Error("Failed to get WAL entries: %v", err)
 		return nil, fmt.Errorf("failed to get WAL entries: %w", err)
